@@ -381,3 +381,42 @@ func VerifC05_History() {
 	vEndBlock(e, tm, "C05.history.idle")
 	zz.Reach("C05.history")
 }
+
+// VerifC05_SameBlock: several staking-state changes land in ONE block (two or three validators leave, join or change
+// power before the same EndBlock), also with an unstaking time of zero (a legal parameter value: the unstake matures in
+// the block it begins): the single batch is applicable and yields the top-MaxValidators set.
+func VerifC05_SameBlock() {
+	e := keeper.VNewEnv(3)
+	for i := 0; i < 3; i++ {
+		e.Fund(e.Addrs[i], sdk.NewInt(1<<41))
+	}
+	e.Stake(0, sdk.NewInt(3000000))
+	e.Stake(1, sdk.NewInt(4000000))
+	e.Stake(2, sdk.NewInt(5000000))
+	vSetMaxValidators(e, uint64(2+zz.Choice("maxvals", 2)))
+	if zz.Choice("unstaking_time_zero", 2) == 1 {
+		p := e.K.GetParams(e.Ctx)
+		p.UnstakingTime = 0
+		e.K.SetParams(e.Ctx, p)
+	}
+	tm := &vTMSet{}
+	vEndBlock(e, tm, "C05.sameblock.genesis")
+	h := NewHandler(e.K)
+	for i := 0; i < 3; i++ {
+		switch zz.Choice("change", 5) {
+		case 0: // nothing
+		case 1:
+			h(e.Ctx, types.MsgBeginUnstake{Address: e.Addrs[i]})
+		case 2:
+			e.K.JailValidator(e.Ctx, e.Addrs[i])
+		case 3:
+			v, _ := e.Val(i)
+			_ = e.K.ForceValidatorUnstake(e.Ctx, v)
+		case 4:
+			_ = e.Slash(i, 2, sdk.NewDecWithPrec(5, 1))
+		}
+	}
+	vEndBlock(e, tm, "C05.sameblock.after-changes")
+	vEndBlock(e, tm, "C05.sameblock.idle")
+	zz.Reach("C05.sameblock")
+}
